@@ -196,7 +196,12 @@ class BaseStorage(UndoLogCompatible):
 
             user = transaction.user
             desc = transaction.description
-            ext = transaction.extension_bytes
+            try:
+                ext = transaction.extension_bytes
+            except AttributeError:
+                # e.g. the record of a volatile storage being copied
+                ext = TransactionMetaData(
+                    extension=transaction.extension).extension_bytes
 
             self._ude = user, desc, ext
 
